@@ -77,7 +77,7 @@ def stub_client(producer, log, added):
     cluster.available_partitions_for_topic = lambda topic: {0, 1}
 
 
-async def scenario(first_sends):
+async def scenario(first_sends, abort_at_once=False):
     """first_sends: [(topic, partition)] sent in the first transaction (with linger, so that one AddPartitionsToTxn names
     them all); then abort; then a second transaction with one send to the allowed topic, committed"""
     from aiokafka import AIOKafkaProducer
@@ -92,13 +92,24 @@ async def scenario(first_sends):
         await producer.begin_transaction()
         for topic, p in first_sends:
             futs.append(await producer.send(topic, b"first", partition=p))
-        for _ in range(400):
-            if tm.state == TransactionState.ABORTABLE_ERROR:
-                break
-            await asyncio.sleep(0.005)
-        if tm.state != TransactionState.ABORTABLE_ERROR:
-            return ["no abortable error arrived (state %s)" % tm.state]
-        await asyncio.sleep(0.1)                 # let the sender run on with the failed transaction still open
+        if abort_at_once:
+            # the application is already waiting in commit_transaction() when the coordinator refuses the partitions: it is
+            # woken by the failed transaction waiter - possibly before the sender loop runs again - and aborts at once
+            try:
+                await asyncio.wait_for(producer.commit_transaction(), 5)
+                return ["commit_transaction() of a refused transaction succeeded"]
+            except asyncio.TimeoutError:
+                return ["commit_transaction() neither failed nor returned"]
+            except Exception:
+                pass
+        else:
+            for _ in range(400):
+                if tm.state == TransactionState.ABORTABLE_ERROR:
+                    break
+                await asyncio.sleep(0.005)
+            if tm.state != TransactionState.ABORTABLE_ERROR:
+                return ["no abortable error arrived (state %s)" % tm.state]
+            await asyncio.sleep(0.1)                 # let the sender run on with the failed transaction still open
         await asyncio.wait_for(producer.abort_transaction(), 5)
         mark = len(log)
         await producer.begin_transaction()
@@ -128,6 +139,7 @@ def sweep():
     bad = []
     for first in ([(DENIED, 0)], [(ALLOWED, 0), (DENIED, 0)], [(DENIED, 0), (ALLOWED, 1)], [(ALLOWED, 0), (ALLOWED, 1), (DENIED, 1)]):
         bad += asyncio.run(scenario(first))
+        bad += ["(abort at once) " + b for b in asyncio.run(scenario(first, abort_at_once=True))]
     return bad
 
 
